@@ -22,7 +22,7 @@ RULE = ('source port trees to depth 3 over names {a, ab, abc, b, x} (so names ar
 RULE += ('; also: empty namespaces, a reused options dictionary, targets below existing namespaces, a second narrower exposure of the same class, a destination port under the name of an excluded source port')
 ASSUMPTIONS = ['an empty include list is treated by the code as "no filter" and is outside the quantifier', 'reference model written from the property statement']
 REQUIRED = ['exposes', 'include_cases', 'exclude_cases', 'prefix_sibling_cases', 'nested_rule_cases', 'attr_checks', 'mutation_probes', 'both_rejected',
-            'namespace_option_cases', 'preexisting_kept', 'options_reused', 're_exposures', 'own_port_under_excluded_name']
+            'namespace_option_cases', 'preexisting_kept', 'options_reused', 're_exposures', 'own_port_under_excluded_name', 'renamed_source_ports']
 BOUNDS = {'quick': '40 trees x all single rules and pairs', 'thorough': '600 trees, rule sets up to 3'}
 NAMES = ['a', 'ab', 'abc', 'b', 'x']
 
@@ -106,14 +106,19 @@ def _kw(attrs):
     return kw
 
 
-def build(ns, tree, kind):
-    for name, d in tree.items():
+def build(ns, tree, kind, renamed=False):
+    for k, (name, d) in enumerate(tree.items()):
+        # (renamed: the first entry of every level was declared under another name and moved -- ``ns[new] = ns.pop(old)`` -- so the
+        # key it is found under differs from the name the port object carries)
+        made = 'was_' + name if renamed and k == 0 else name
         if d[0] == 'port':
-            ns[name] = (InputPort if kind == 'in' else OutputPort)(name, **_kw(d[1]))
+            ns[made] = (InputPort if kind == 'in' else OutputPort)(made, **_kw(d[1]))
         else:
-            sub = PortNamespace(name, **_kw(d[1]))
-            ns[name] = sub
-            build(sub, d[2], kind)
+            sub = PortNamespace(made, **_kw(d[1]))
+            ns[made] = sub
+            build(sub, d[2], kind, renamed)
+        if made != name:
+            ns[name] = ns.pop(made)
 
 
 def gen_cases(tier, seed):
@@ -145,7 +150,8 @@ def gen_cases(tier, seed):
                     opts = rng.choice([{'help': 'override'}, {'required': False}, {'dynamic': True}, {'populate_defaults': False},
                                        {'required': False, 'help': 'o2', 'valid_type': 'str'}])
                 pre = rng.random() < 0.6
-                yield {'kind': kind, 'tree': tree, 'top': top_attrs, 'mode': mode, 'rules': rs, 'target': target, 'options': opts, 'pre': pre}
+                yield {'kind': kind, 'tree': tree, 'top': top_attrs, 'mode': mode, 'rules': rs, 'target': target, 'options': opts, 'pre': pre,
+                       'renamed': t % 3 == 1}
         # include together with exclude is rejected
         yield {'kind': kind, 'tree': tree, 'top': top_attrs, 'mode': 'both', 'rules': [allp[0]], 'target': None, 'options': {}, 'pre': False}
 
@@ -192,6 +198,7 @@ def _port_attrs(port):
     a = {'required': port.required, 'valid_type': port.valid_type, 'help': port.help, 'validator': port.validator, 'name': port.name}
     if isinstance(port, InputPort):
         a['default'] = port.default if port.has_default() else UNSPECIFIED
+        a['has_default'] = port.has_default()
     return a
 
 
@@ -242,7 +249,7 @@ def run_case(case):
     src_root = src_spec.inputs if kind == 'in' else src_spec.outputs
     for k, v in _kw(case['top']).items():
         setattr(src_root, k, v)
-    build(src_root, case['tree'], kind)
+    build(src_root, case['tree'], kind, renamed=bool(case.get('renamed')))
     src_cls = type('Src', (_Src,), {'_spec': src_spec})
     dest = ProcessSpec()
     droot = dest.inputs if kind == 'in' else dest.outputs
@@ -263,7 +270,7 @@ def run_case(case):
     pre_desc = describe(droot)
     expose = dest.expose_inputs if kind == 'in' else dest.expose_outputs
     obs = {'exposes': 1, 'include_cases': 0, 'exclude_cases': 0, 'prefix_sibling_cases': 0, 'nested_rule_cases': 0, 'attr_checks': 0,
-           'mutation_probes': 0, 'both_rejected': 0, 'namespace_option_cases': 0, 'preexisting_kept': 0, 'options_reused': 0}
+           'renamed_source_ports': int(bool(case.get('renamed'))), 'mutation_probes': 0, 'both_rejected': 0, 'namespace_option_cases': 0, 'preexisting_kept': 0, 'options_reused': 0}
     viol = []
     mode, rules = case['mode'], case['rules']
     shape = '%s:%s' % (mode, kind)
